@@ -17,6 +17,7 @@ type GenCfg struct {
 	NoFeatures  bool
 	ConfigFalse bool // allow config false subtrees
 	OneKeyLists bool
+	UniqueBias  bool // lists get extra string leaves and always some unique statements
 }
 
 type G struct {
@@ -183,6 +184,10 @@ func (g *G) node(sc *scope, depth int, cfgFalse bool, inChoice bool) *Node {
 		if g.Chance(1, 3, "lsord") {
 			n.OrdBy = "user"
 		}
+		if g.Cfg.UniqueBias && g.Chance(1, 2, "uqleaves") {
+			// two plain string leaves so that several unique sets of the same arity can exist
+			n.Kids = append(n.Kids, &Node{Kind: "leaf", Name: g.id("uq"), Type: &TypeSpec{Name: "string"}}, &Node{Kind: "leaf", Name: g.id("uq"), Type: &TypeSpec{Name: "string"}})
+		}
 		// unique over direct leaves (not the key)
 		var leaves []string
 		for _, k := range n.Kids[1:] {
@@ -190,10 +195,36 @@ func (g *G) node(sc *scope, depth int, cfgFalse bool, inChoice bool) *Node {
 				leaves = append(leaves, k.Name)
 			}
 		}
-		if len(leaves) > 0 && g.Chance(1, 2, "uniq") {
-			n.Uniques = []string{leaves[0]}
-			if len(leaves) > 1 {
-				n.Uniques[0] += " " + leaves[1]
+		// ... and over leaves one container below
+		for _, k := range n.Kids[1:] {
+			if k.Kind == "container" && len(k.IfFeatures) == 0 && k.When == "" {
+				for _, kk := range k.Kids {
+					if kk.Kind == "leaf" && len(kk.IfFeatures) == 0 && kk.When == "" && kk.Type != nil && kk.Type.Name != "empty" {
+						leaves = append(leaves, k.Name+"/"+kk.Name)
+					}
+				}
+			}
+		}
+		if len(leaves) > 0 && (g.Chance(1, 2, "uniq") || g.Cfg.UniqueBias) {
+			// 1-3 unique statements of 1-2 leaves each; the sets may overlap
+			nu := 1 + g.Pick(3, "nuniq")
+			for i := 0; i < nu; i++ {
+				a := leaves[g.Pick(len(leaves), "uleaf")]
+				u := a
+				if len(leaves) > 1 && g.Bool("upair") {
+					if b := leaves[g.Pick(len(leaves), "uleaf2")]; b != a {
+						u += " " + b
+					}
+				}
+				dup := false
+				for _, x := range n.Uniques {
+					if x == u {
+						dup = true
+					}
+				}
+				if !dup {
+					n.Uniques = append(n.Uniques, u)
+				}
 			}
 		}
 		return n
@@ -287,6 +318,13 @@ func (g *G) GenSet() []*Mod {
 			m.Revision = "2020-01-0" + fmt.Sprint(1+i)
 		}
 		sc := &scope{mod: m}
+		// a reference to a definition of the module itself may be written with the module's own prefix
+		own := func(name string) string {
+			if g.Chance(1, 4, "ownprefix") {
+				return m.Prefix + ":" + name
+			}
+			return name
+		}
 		// imports of earlier modules (DAG); grouping names contain the module name, so nothing clashes
 		for j := 0; j < i; j++ {
 			if g.Chance(1, 2, "import") {
@@ -314,17 +352,21 @@ func (g *G) GenSet() []*Mod {
 					f.IfFeatures = []string{sc.features[g.Pick(len(sc.features), "fdep")]}
 				}
 				m.Features = append(m.Features, f)
-				sc.features = append(sc.features, f.Name)
+				sc.features = append(sc.features, own(f.Name))
 			}
 		}
 		ni := g.Pick(6, "nident")
 		for k := 0; k < ni; k++ {
 			id := &Identity{Name: fmt.Sprintf("i%d-%d", i, k)}
+			if g.Chance(1, 3, "idshared") {
+				// the same local name in several modules: identities are told apart by their module only
+				id.Name = fmt.Sprintf("ishared-%d", k)
+			}
 			if len(sc.idents) > 0 && g.Chance(2, 3, "idbase") {
 				id.Base = sc.idents[g.Pick(len(sc.idents), "idb")]
 			}
 			m.Identities = append(m.Identities, id)
-			sc.idents = append(sc.idents, id.Name)
+			sc.idents = append(sc.idents, own(id.Name))
 		}
 		nt := g.Pick(4, "ntypedef")
 		for k := 0; k < nt; k++ {
@@ -334,14 +376,14 @@ func (g *G) GenSet() []*Mod {
 				td.Default = def
 			}
 			m.Typedefs = append(m.Typedefs, td)
-			sc.typedefs = append(sc.typedefs, td.Name)
+			sc.typedefs = append(sc.typedefs, own(td.Name))
 		}
 		ng := g.Pick(4, "ngroup")
 		for k := 0; k < ng; k++ {
 			gr := &Grouping{Name: fmt.Sprintf("g%d-%d", i, k)}
 			gr.Kids = g.kids(sc, 1, false)
 			m.Groupings = append(m.Groupings, gr)
-			sc.groupings = append(sc.groupings, gr.Name)
+			sc.groupings = append(sc.groupings, own(gr.Name))
 		}
 		nn := 1 + g.Pick(3, "ntop")
 		for k := 0; k < nn; k++ {
